@@ -33,19 +33,47 @@ META = dict(
          "mutations of an object leaves the view of every object with separate list and dict cell unchanged, although "
          "occurrence lists are shared and rewritten in place), copy_frame and copyModule_frame (copy() and the "
          "copy-module/pickle protocol: the copy shows the original's view; mutating either side never changes the other) "
-         "— full strength on the model for all heaps/objects/mutation sequences. PARTIAL: deepcopy()/copy.deepcopy/"
-         "pickle of nested groups are not proved (only the one-level deepcopy1 witness "
-         "deepcopy_named_group_aliased_witness = registered finding deepcopy_named_group_aliased: deepcopy() leaves "
-         "named nested values shared with the original); that clause is decided by the mutate-then-compare oracle on "
-         "the real class only. from_dict: tree model of from_dict/as_dict (PPModel/Mod/PRFromDict.lean), "
+         "— full strength on the model for all heaps/objects/mutation sequences. NESTED groups at every depth "
+         "(PPProofs/Props/C11Deep.lean, models deepcopyN and deepObjN/copyModuleDeep in PPModel/Mod/PRHeapDeep.lean), for "
+         "all heaps, objects, depths and mutation sequences, under the hypothesis that the (token / token+name) structure "
+         "of the object is allocated and of finite depth: ParseResults.deepcopy(): deepcopy_tokens_fresh (every group "
+         "reachable through the copy's token lists is a new object with new list and dict cell, not in the original's "
+         "token tree — deepcopy_tokens_fresh_full: not reachable from the original by any route —, and as_list() of "
+         "the copy = as_list() of the original to every depth; deepcopy_views: BOTH views, nested, are the original's), deepcopy_frame_tokens / deepcopy_frame_tokens_many (own "
+         "mutations of any groups of the copy's token tree never change the original's as_list(), and vice versa; deepcopy_frame_views: nor the view of any "
+         "well-formed object of the original heap, and vice versa), "
+         "deepcopy_names_shared + deepcopy_named_alias_any_depth (registered finding deepcopy_named_group_aliased, "
+         "general form: at every depth the copy of a group keeps the very occurrence lists of the original, so every "
+         "named nested value of the copy IS the original's object; a concrete heap for every depth). copy.deepcopy / "
+         "pickle of nested results (memoised graph copy through __getnewargs__/__getstate__/__setstate__): "
+         "copyModule_deep_fresh (every object reachable from the copy by any route, names included, is new with new "
+         "list cell, dict cell and occurrence lists; nothing of the original heap is written) and "
+         "copyModule_deep_frame (own mutations on either side never change the other side's view), "
+         "copyModule_deep_as_list and copyModule_deep_views (as_list() resp. BOTH views — tokens, names in order with all "
+         "occurrences and positions, list-all names, nested results expanded — of the copy are those of the original, to "
+         "every depth). PARTIAL: the view theorems need the whole structure reachable from the object (tokens and "
+         "names) to be allocated and acyclic (hypothesis FD); container tokens (list/tuple/dict holding "
+         "groups, results.py:598-605) are proved for deepcopy() only, in a separate model (deepcopyC, "
+         "PPProofs/Props/C11DeepC.lean: deepcopyC_tokens_fresh, deepcopyC_frame_tokens — the groups inside a rebuilt "
+         "container are new at every depth, the expanded nested list is preserved, own mutations never cross), not for "
+         "copy.deepcopy/pickle and not for containers nested in containers (shared by the code; opaque in the model); "
+         "the container model is tied to the class by one sharing pattern (stream container-sharing) and the "
+         "frames:container-tokens oracle. "
+         "from_dict: tree model of from_dict/as_dict (PPModel/Mod/PRFromDict.lean), "
          "from_dict_roundtrip proved for ALL dicts whose nested dicts are non-empty, at every depth (full strength on "
          "the tree model; its one assumption about `+=` in the loop is proved on the full model as from_dict_item_step; tied to the class by a "
          "per-run structural correspondence); from_dict_empty_inner_dict shows why `non-empty` is needed.",
     note="Trusted: Lean kernel; axioms propext/Classical.choice/Quot.sound; the value model of results.py (C10) and the "
          "transcription of copy()/__getstate__/__setstate__/__add__/__radd__; the heap model (PRHeap.lean) is tied to the "
-         "class only by a 30-cell sharing table (3 kinds of copy x 10 probes) and by the frame oracle; CPython copy/pickle "
-         "protocol dispatch is assumed, not modelled; nested-group frames of the deep kinds are oracle-checked only (no "
-         "proof); the from_dict tree model is a separate small model (not derived from the PR model in Lean).",
+         "class only by a sharing table (3 kinds of copy x 12 probes), the deep models (PRHeapDeep.lean: deepcopyN, "
+         "deepObjN) by the streams deep-sharing (is-identity and append probes on chains of nested groups, depths 1-6, "
+         "deepcopy()/copy.deepcopy/pickle) and tree-sharing (random nested shapes with named and unnamed groups: for every "
+         "access path, is the copy's object the original's, and which paths of the copy lead to the same object) and by the frame oracle; the CPython copy/pickle protocol dispatch "
+         "(copy._reconstruct, memo discipline, order args -> __new__ -> memo -> state -> __setstate__) is transcribed by "
+         "hand into deepObjN, not verified; deepcopyN stores the rebuilt token list once after the loop; the statement-by-statement "
+         "loop (deepcopyLoop, store after each recursive call) is proved equal to it (deepcopyLoop_eq); fuel-bounded recursion, "
+         "theorems hold for every fuel >= depth; "
+         "the from_dict tree model is a separate small model (not derived from the PR model in Lean).",
     technique="Lean 4 proof on the value model + differential copies/concatenations + mutate-then-compare oracle",
     design="§5 C11",
 )
@@ -77,6 +105,30 @@ THEOREMS = [
     "PP.PR.sum_is_fold",
     "PP.PR.concat_assoc_former_witness",
     "PP.PR.from_dict_item_step",
+    # deepcopy() of nested groups at every depth (PPProofs/Props/C11Deep.lean, heap model PRHeapDeep.lean)
+    "PP.PRHeap.deepcopyLoop_eq",
+    "PP.PRHeap.deepcopy_tokens_fresh",
+    "PP.PRHeap.deepcopy_frame_tokens",
+    "PP.PRHeap.deepcopy_frame_tokens_many",
+    "PP.PRHeap.deepcopy_frame_views",
+    "PP.PRHeap.deepcopy_names_shared",
+    "PP.PRHeap.deepcopy_named_alias_any_depth",
+    "PP.PRHeap.deepcopy_tokens_fresh_full",
+    "PP.PRHeap.deepcopy_views",
+    "PP.PRHeap.deepcopyN_corr",
+    "PP.PRHeap.deepcopyN_ext",
+    # copy.deepcopy / pickle of nested results (memoised model deepObjN / copyModuleDeep)
+    "PP.PRHeap.copyModule_deep_fresh",
+    "PP.PRHeap.copyModule_deep_frame",
+    "PP.PRHeap.copyModule_deep_as_list",
+    "PP.PRHeap.copyModule_deep_views",
+    "PP.PRHeap.deepObjN_drel",
+    "PP.PRHeap.deepObjN_rel",
+    "PP.PRHeap.deepObjN_spec",
+    # deepcopy() with container tokens (tuple/list/dict of groups), PPProofs/Props/C11DeepC.lean
+    "PP.PRHeap.deepcopyC_tokens_fresh",
+    "PP.PRHeap.deepcopyC_frame_tokens",
+    "PP.PRHeap.deepcopyC_corr",
 ]
 
 KINDS = ["copy", "copy.copy", "deepcopy", "copy.deepcopy", "pickle"]
@@ -452,6 +504,105 @@ def sharing_real(pp, kind, probe):
     return snapshot(pp, watch) != snap
 
 
+def deep_share_real(pp, kind, d):
+    """the sharing pattern of a deep copy (kind: deepcopy / copy.deepcopy / pickle) of d+1 groups nested in each other,
+    the innermost named `g` in its parent (the shape of PRHeapDeep.lean `chainHeap d`), by `is`-identity probes and two
+    append probes; last entry: the copy's as_list() is the original's; see `deepShareOf`"""
+    expr = pp.Group(pp.Word("a"))("g")
+    for _ in range(d - 1):
+        expr = pp.Group(expr)
+
+    def chain(x):
+        out = [x]
+        for _ in range(d):
+            out.append(out[-1][0])
+        return out
+
+    r = expr.parse_string("a")
+    c = make_copy(r, kind)
+    po, pc = chain(r), chain(c)
+    gv = pc[d - 1]["g"]
+    out = [a is b for a, b in zip(po, pc)] + [gv is po[-1], gv is pc[-1]]
+    same_list = _plain(c.as_list()) == _plain(r.as_list())
+    r = expr.parse_string("a")
+    before = _plain(r.as_list())
+    chain(make_copy(r, kind))[-1].append("z")
+    out.append(_plain(r.as_list()) != before)
+    r = expr.parse_string("a")
+    before = _plain(r.as_list())
+    chain(make_copy(r, kind))[d - 1]["g"].append("z")
+    out.append(_plain(r.as_list()) != before)
+    out.append(same_list)
+    return out
+
+
+def gen_shape(rng, depth=0, name=""):
+    """a group: ["g", name-in-parent, kids]; kids are strings or groups; names unique per parent"""
+    kids, pool = [], ["a", "b", "c", "d"]
+    rng.shuffle(pool)
+    for _ in range(rng.randint(1, 3)):
+        if depth < 3 and rng.random() < 0.55:
+            kids.append(gen_shape(rng, depth + 1, pool.pop() if rng.random() < 0.6 else ""))
+        else:
+            kids.append(rng.choice(["x", "y", "0"]))
+    return ["g", name, kids]
+
+
+def shape_sexp(t):
+    return t if isinstance(t, str) else [Sym("g"), t[1]] + [shape_sexp(k) for k in t[2]]
+
+
+def build_shape(pp, t):
+    kids = [k if isinstance(k, str) else build_shape(pp, k) for k in t[2]]
+    r = pp.ParseResults(kids)
+    for k, obj in zip(t[2], kids):
+        if not isinstance(k, str) and k[1]:
+            r[k[1]] = obj
+    return r
+
+
+def shape_paths(pp, r, depth=0):
+    """the nested groups of r by access path, depth first, token steps before name steps (as PRHeapDeep.lean `paths`)"""
+    out = [r]
+    if depth >= 12:
+        return out
+    for t in r:
+        if isinstance(t, pp.ParseResults):
+            out += shape_paths(pp, t, depth + 1)
+    for k in r.keys():
+        v = r[k]
+        if isinstance(v, pp.ParseResults):
+            out += shape_paths(pp, v, depth + 1)
+    return out
+
+
+def tree_share_real(pp, kind, shape):
+    r = build_shape(pp, shape)
+    c = make_copy(r, kind)
+    po, pc = shape_paths(pp, r), shape_paths(pp, c)
+    if len(po) != len(pc):
+        return "paths differ"
+    first = [next(j for j, y in enumerate(pc) if y is x) for x in pc]
+    return dumps([[a is b for a, b in zip(po, pc)], first])
+
+
+def cont_share_real(pp):
+    """r = [(<['a']>, 'x', <['b']>), <['a']>] (a tuple token holding two groups, the first group again as a token);
+    c = r.deepcopy(); see PRHeapDeepC.lean `contShare`"""
+    PR = pp.ParseResults
+    g0, g1 = PR(["a"]), PR(["b"])
+    r = PR([(g0, "x", g1), g0])
+    c = r.deepcopy()
+    t = c[0]
+    out = [t[0] is g0, t[2] is g1, c[1] is g0, c[1] is t[0]]
+    same = cnorm(pp, c) == cnorm(pp, r)
+    before = cnorm(pp, r)
+    t[0].append("z")
+    out.append(cnorm(pp, r) != before)
+    out.append(same)
+    return out
+
+
 # ---- nested groups inside container tokens (a parse action may return tuples / lists / dicts of groups) -------------
 def cnorm(pp, x):
     PR = pp.ParseResults
@@ -531,7 +682,7 @@ def run(ctx):
     PR = pp.ParseResults
     attr_ok = lambda nm: not hasattr(PR, nm)
     proof_ok = ctx.proof_leg("PPProofs.Props.C11", THEOREMS + HEAP_THEOREMS + FROMDICT_THEOREMS,
-                              extra_modules=("PPProofs.Props.C11Heap", "PPProofs.Props.C11FromDict"))
+                              extra_modules=("PPProofs.Props.C11Heap", "PPProofs.Props.C11FromDict", "PPProofs.Props.C11Deep", "PPProofs.Props.C11DeepC"))
     ctx.rule.append(
         "start objects as in C10 (real parse results of 16 grammars incl. nested groups, list-all names, int tokens; "
         "constructor calls); kinds copy()/copy.copy/deepcopy()/copy.deepcopy/pickle; frames: 1..6 own mutations (the 15 "
@@ -561,6 +712,21 @@ def run(ctx):
     slines = [sx(Sym("prshare"), k, p) for k, p in scases]
     simpl = [dumps(bool(sharing_real(pp, k, p))) for k, p in scases]
     d0 = ctx.correspond("sharing-table", scases, slines, simpl, outcome_of=lambda c, o: f"{c[0]}:{o}")
+    # ---- deepcopyN / copyModuleDeep (PRHeapDeep.lean) vs real deepcopy() / copy.deepcopy / pickle: sharing pattern of
+    #      nested groups, depths 1..6
+    dcases = [[k, d] for k in sorted(DEEP) for d in range(1, 7)]
+    d0b = ctx.correspond("deep-sharing", [{"kind": k, "depth": d} for k, d in dcases],
+                         [sx(Sym("prdeepshare"), k, d) for k, d in dcases],
+                         [dumps([bool(b) for b in deep_share_real(pp, k, d)]) for k, d in dcases],
+                         outcome_of=lambda c, o: c["kind"])
+    d0c = ctx.correspond("container-sharing", [{"shape": "[(g0,'x',g1), g0]", "kind": "deepcopy"}], [sx(Sym("prcontshare"))],
+                         [dumps([bool(b) for b in cont_share_real(pp)])], outcome_of=lambda c, o: c["kind"])
+    rng = ctx.subrng("tree-sharing")
+    tcases = [{"kind": k, "shape": gen_shape(rng)} for _ in range(ctx.budget(40, 400)) for k in sorted(DEEP)]
+    d0d = ctx.correspond("tree-sharing", tcases, [sx(Sym("prtreeshare"), c["kind"], shape_sexp(c["shape"])) for c in tcases],
+                         [tree_share_real(pp, c["kind"], c["shape"]) for c in tcases],
+                         nontrivial=lambda c, o: o.count("T") + o.count("F") > 2, outcome_of=lambda c, o: c["kind"])
+    d0 = list(d0) + list(d0b) + list(d0c) + list(d0d)
     # ---- (a) preserve: every kind of copy has the views of the original; model = views of the extracted state ----
     rng = ctx.subrng("preserve")
     cases, lines, impl = [], [], []
@@ -686,8 +852,8 @@ def run(ctx):
                 ctx.fail_input("from_dict(d).as_dict() != d", {"dict": d}, _plain(d), res,
                                theorem="PP.FromDict.from_dict_roundtrip")
                 break
-    ctx.assumptions.append("C11: the frame theorems are about the heap model of copy()/copy.copy; nested-group frames of the "
-                           "deep kinds are decided by the oracle on the real class only; from_dict: tree model + round-trip "
+    ctx.assumptions.append("C11: the frame theorems are about the heap models of copy()/copy.copy/deepcopy()/copy.deepcopy; the "
+                           "deep models are tied to the class by the deep-sharing stream and the frame oracle; from_dict: tree model + round-trip "
                            "theorem + structural correspondence")
 
 
